@@ -130,4 +130,413 @@ theorem matchB_iff {σ} : ∀ (r : Rx σ) (s : List σ), matchB r s = true ↔ M
   | .alt l r, s => by simp [matchB, matches_alt, matchB_iff l s, matchB_iff r s]
   | .inter l r, s => by simp [matchB, matches_inter, matchB_iff l s, matchB_iff r s]
 
+/-! ### interface to the integer sets (C33) -/
+
+open Spec.IntSet in
+theorem mem_union (a b : SymSet) (v : Int) : Mem (IntSet.union a b) v ↔ Mem a v ∨ Mem b v := by
+  unfold IntSet.union
+  rw [(Proofs.IntSet.mk_spec _).2 v, Proofs.IntSet.mem_append]
+
+open Spec.IntSet in
+theorem canon_union (a b : SymSet) : Canon (IntSet.union a b) := (Proofs.IntSet.mk_spec _).1
+
+open Spec.IntSet in
+theorem mem_inter {a b : SymSet} (ha : Canon a) (hb : Canon b) (v : Int) :
+    Mem (IntSet.inter a b) v ↔ Mem a v ∧ Mem b v := by
+  unfold IntSet.inter
+  rw [(Proofs.IntSet.mk_spec _).2 v, Proofs.IntSet.interLoop_spec a b ha hb v]
+
+open Spec.IntSet in
+theorem canon_inter (a b : SymSet) : Canon (IntSet.inter a b) := (Proofs.IntSet.mk_spec _).1
+
+open Spec.IntSet in
+theorem mem_diff {a b : SymSet} (ha : Canon a) (hb : Canon b) (v : Int) :
+    Mem (IntSet.diff a b) v ↔ Mem a v ∧ ¬ Mem b v := by
+  unfold IntSet.diff
+  rw [(Proofs.IntSet.mk_spec _).2 v, Proofs.IntSet.diffLoop_spec a b ha hb v]
+
+open Spec.IntSet in
+theorem canon_diff (a b : SymSet) : Canon (IntSet.diff a b) := (Proofs.IntSet.mk_spec _).1
+
+open Spec.IntSet in
+/-- `IntegerSet(*s)` (re-creating a set from its members) denotes the same set -/
+theorem mem_ofSet (s : SymSet) (v : Int) :
+    Mem (IntSet.mk ((IntSet.iter s).map fun v => (v, v))) v ↔ Mem s v := by
+  rw [(Proofs.IntSet.mk_spec _).2 v]
+  constructor
+  · rintro ⟨r, hr, h1, h2⟩
+    obtain ⟨w, hw, rfl⟩ := List.mem_map.1 hr
+    have : v = w := by simp only at h1 h2; omega
+    subst this; exact (Proofs.IntSet.mem_iter s v).1 hw
+  · intro h
+    exact ⟨(v, v), List.mem_map.2 ⟨v, (Proofs.IntSet.mem_iter s v).2 h, rfl⟩, Int.le_refl _, Int.le_refl _⟩
+
+open Spec.IntSet in
+theorem canon_sigma : Canon sigmaSet := by simp [sigmaSet, Canon]
+
+open Spec.IntSet in
+theorem mem_sigma (v : Int) : Mem sigmaSet v ↔ 0 ≤ v ∧ v ≤ 255 := by
+  simp [sigmaSet, Mem, InR]
+
+/-! ### the language of the constructors -/
+
+theorem L_eps {s : List Int} : L .eps s ↔ s = [] := matches_eps
+
+theorem L_set {a : SymSet} {s : List Int} : L (.set a) s ↔ ∃ c, s = [c] ∧ Spec.IntSet.Mem a c := by
+  simp only [L, denote, matches_cls, Proofs.IntSet.memB_iff]
+
+theorem L_NULL {s : List Int} : ¬ L NULL s := by
+  simp [NULL, L_set, Spec.IntSet.Mem]
+
+theorem L_cat {l r : Re} {s : List Int} : L (.cat l r) s ↔ ∃ u v, s = u ++ v ∧ L l u ∧ L r v := matches_cat
+theorem L_or {l r : Re} {s : List Int} : L (.or l r) s ↔ L l s ∨ L r s := matches_alt
+theorem L_and {l r : Re} {s : List Int} : L (.and l r) s ↔ L l s ∧ L r s := matches_inter
+theorem L_star_nil {e : Re} : L (.star e) [] := matches_star_nil
+theorem L_star_cons {e : Re} {c : Int} {s : List Int} :
+    L (.star e) (c :: s) ↔ ∃ u v, s = u ++ v ∧ L e (c :: u) ∧ L (.star e) v := matches_star_cons
+
+theorem L_concatenate (l r : Re) (s : List Int) :
+    L (concatenate l r) s ↔ ∃ u v, s = u ++ v ∧ L l u ∧ L r v := by
+  unfold concatenate
+  split
+  · next h => subst h; simp [L_NULL]
+  · split
+    · next h => subst h; simp [L_NULL]
+    · split
+      · next h =>
+        subst h
+        constructor
+        · intro h; exact ⟨[], s, rfl, L_eps.2 rfl, h⟩
+        · rintro ⟨u, v, rfl, hu, hv⟩; rw [L_eps.1 hu]; exact hv
+      · split
+        · next h =>
+          subst h
+          constructor
+          · intro h; exact ⟨s, [], (List.append_nil s).symm, h, L_eps.2 rfl⟩
+          · rintro ⟨u, v, rfl, hu, hv⟩; rw [L_eps.1 hv, List.append_nil]; exact hu
+        · exact L_cat
+
+theorem L_logicalOr (l r : Re) (s : List Int) : L (logicalOr l r) s ↔ L l s ∨ L r s := by
+  unfold logicalOr
+  split
+  · next a b =>
+    simp only [symbolSetOfSet, L_set, mem_ofSet, mem_union]
+    constructor
+    · rintro ⟨c, rfl, h | h⟩
+      · exact .inl ⟨c, rfl, h⟩
+      · exact .inr ⟨c, rfl, h⟩
+    · rintro (⟨c, rfl, h⟩ | ⟨c, rfl, h⟩)
+      · exact ⟨c, rfl, .inl h⟩
+      · exact ⟨c, rfl, .inr h⟩
+  · split
+    · next h => subst h; simp
+    · split
+      · next h => subst h; simp [L_NULL]
+      · split
+        · next h => subst h; simp [L_NULL]
+        · exact L_or
+
+theorem L_logicalAnd (l r : Re) (s : List Int) : L (logicalAnd l r) s ↔ L l s ∧ L r s := by
+  unfold logicalAnd
+  split
+  · next h => subst h; simp
+  · split
+    · next h => subst h; simp [L_NULL]
+    · split
+      · next h => subst h; simp [L_NULL]
+      · exact L_and
+
+/-! ### the representation invariant is preserved -/
+
+theorem WF_NULL : WF NULL := by simp [NULL, WF, Spec.IntSet.Canon]
+theorem WF_SIGMA : WF SIGMA := canon_sigma
+theorem WF_symbolSet (xs : List (Int × Int)) : WF (symbolSet xs) := (Proofs.IntSet.mk_spec _).1
+theorem WF_symbol (c : Int) : WF (symbol c) := WF_symbolSet _
+
+theorem WF_concatenate {l r : Re} (hl : WF l) (hr : WF r) : WF (concatenate l r) := by
+  unfold concatenate
+  repeat' split
+  all_goals first | exact WF_NULL | exact hl | exact hr | exact ⟨hl, hr⟩
+
+theorem WF_logicalOr {l r : Re} (hl : WF l) (hr : WF r) : WF (logicalOr l r) := by
+  unfold logicalOr
+  split
+  · exact (Proofs.IntSet.mk_spec _).1
+  · repeat' split
+    all_goals first | exact hl | exact hr | exact ⟨hl, hr⟩
+
+theorem WF_logicalAnd {l r : Re} (hl : WF l) (hr : WF r) : WF (logicalAnd l r) := by
+  unfold logicalAnd
+  repeat' split
+  all_goals first | exact hl | exact hr | exact ⟨hl, hr⟩
+
+/-! ### `nu` / `nullable` -/
+
+theorem nu_cases : ∀ r : Re, nu r = .eps ∨ nu r = NULL
+  | .eps => .inl rfl
+  | .set _ => .inr rfl
+  | .star _ => .inl rfl
+  | .cat l r => by
+    rcases nu_cases l with h1 | h1 <;> rcases nu_cases r with h2 | h2 <;> simp [nu, h1, h2, logicalAnd, NULL]
+  | .or l r => by
+    rcases nu_cases l with h1 | h1 <;> rcases nu_cases r with h2 | h2 <;>
+      simp [nu, h1, h2, logicalOr, NULL, symbolSetOfSet] <;> decide
+  | .and l r => by
+    rcases nu_cases l with h1 | h1 <;> rcases nu_cases r with h2 | h2 <;> simp [nu, h1, h2, logicalAnd, NULL]
+
+theorem L_nu_iff : ∀ (r : Re) (s : List Int), L (nu r) s ↔ s = [] ∧ L r []
+  | .eps, s => by simp [nu, L_eps]
+  | .set a, s => by
+    simp only [nu, L_set]
+    constructor
+    · intro h; exact absurd h L_NULL
+    · rintro ⟨_, c, h, _⟩; simp at h
+  | .star e, s => by simp [nu, L_eps, L_star_nil]
+  | .cat l r, s => by
+    simp only [nu, L_logicalAnd, L_nu_iff l s, L_nu_iff r s, L_cat]
+    constructor
+    · rintro ⟨⟨h, hl⟩, _, hr⟩; exact ⟨h, [], [], rfl, hl, hr⟩
+    · rintro ⟨h, u, v, huv, hl, hr⟩
+      have := List.append_eq_nil_iff.1 huv.symm
+      rw [this.1] at hl; rw [this.2] at hr
+      exact ⟨⟨h, hl⟩, h, hr⟩
+  | .or l r, s => by
+    simp only [nu, L_logicalOr, L_nu_iff l s, L_nu_iff r s, L_or]
+    constructor
+    · rintro (⟨h, hl⟩ | ⟨h, hr⟩)
+      · exact ⟨h, .inl hl⟩
+      · exact ⟨h, .inr hr⟩
+    · rintro ⟨h, hl | hr⟩
+      · exact .inl ⟨h, hl⟩
+      · exact .inr ⟨h, hr⟩
+  | .and l r, s => by
+    simp only [nu, L_logicalAnd, L_nu_iff l s, L_nu_iff r s, L_and]
+    constructor
+    · rintro ⟨⟨h, hl⟩, _, hr⟩; exact ⟨h, hl, hr⟩
+    · rintro ⟨h, hl, hr⟩; exact ⟨⟨h, hl⟩, h, hr⟩
+
+/-- `nullable r` (i.e. `nu() == EPSILON`) iff the empty string is in the language -/
+theorem nullable_iff (r : Re) : nullable r = true ↔ L r [] := by
+  simp only [nullable, decide_eq_true_eq]
+  rcases nu_cases r with h | h
+  · have := (L_nu_iff r []).1 (by rw [h]; exact L_eps.2 rfl)
+    simp [h, this.2]
+  · have : ¬ L r [] := fun hl => L_NULL (s := []) (by rw [← h]; exact (L_nu_iff r []).2 ⟨rfl, hl⟩)
+    simp [h, this, NULL]
+
+theorem WF_nu (r : Re) : WF (nu r) := by
+  rcases nu_cases r with h | h <;> rw [h]
+  · trivial
+  · exact WF_NULL
+
+/-! ### `derivative` -/
+
+theorem WF_derivative : ∀ (r : Re) (c : Int), WF r → WF (derivative r c)
+  | .eps, _, _ => WF_NULL
+  | .set s, c, _ => by
+    simp only [derivative]; split
+    · trivial
+    · exact WF_NULL
+  | .star e, c, h => WF_concatenate (WF_derivative e c h) h
+  | .cat l r, c, h =>
+    WF_logicalOr (WF_concatenate (WF_derivative l c h.1) h.2) (WF_concatenate (WF_nu l) (WF_derivative r c h.2))
+  | .or l r, c, h => WF_logicalOr (WF_derivative l c h.1) (WF_derivative r c h.2)
+  | .and l r, c, h => WF_logicalAnd (WF_derivative l c h.1) (WF_derivative r c h.2)
+
+/-- Brzozowski: `s ∈ L (∂c r) ↔ c :: s ∈ L r`, through all smart constructors -/
+theorem derivative_correct : ∀ (r : Re) (c : Int) (s : List Int), WF r → (L (derivative r c) s ↔ L r (c :: s))
+  | .eps, c, s, _ => by simp [derivative, L_NULL, L_eps]
+  | .set a, c, s, h => by
+    simp only [derivative, L_set]
+    have hc := Proofs.IntSet.contains_iff a h c
+    split
+    · next hin =>
+      rw [L_eps]
+      constructor
+      · rintro rfl; exact ⟨c, rfl, hc.1 hin⟩
+      · rintro ⟨c', h1, _⟩; simp at h1; exact h1.2
+    · next hin =>
+      constructor
+      · intro h'; exact absurd h' L_NULL
+      · rintro ⟨c', h1, h2⟩
+        simp only [List.cons.injEq] at h1
+        obtain ⟨rfl, _⟩ := h1
+        exact absurd (hc.2 h2) hin
+  | .star e, c, s, h => by
+    simp only [derivative, L_concatenate, L_star_cons]
+    constructor
+    · rintro ⟨u, v, rfl, h1, h2⟩; exact ⟨u, v, rfl, (derivative_correct e c u h).1 h1, h2⟩
+    · rintro ⟨u, v, rfl, h1, h2⟩; exact ⟨u, v, rfl, (derivative_correct e c u h).2 h1, h2⟩
+  | .cat l r, c, s, h => by
+    simp only [derivative, L_logicalOr, L_concatenate, L_cat, L_nu_iff]
+    constructor
+    · rintro (⟨u, v, rfl, h1, h2⟩ | ⟨u, v, rfl, ⟨rfl, h1⟩, h2⟩)
+      · exact ⟨c :: u, v, rfl, (derivative_correct l c u h.1).1 h1, h2⟩
+      · exact ⟨[], c :: v, rfl, h1, (derivative_correct r c v h.2).1 h2⟩
+    · rintro ⟨u, v, huv, h1, h2⟩
+      cases u with
+      | nil =>
+        simp only [List.nil_append] at huv
+        subst huv
+        exact .inr ⟨[], s, rfl, ⟨rfl, h1⟩, (derivative_correct r c s h.2).2 h2⟩
+      | cons a u' =>
+        simp only [List.cons_append, List.cons.injEq] at huv
+        obtain ⟨rfl, rfl⟩ := huv
+        exact .inl ⟨u', v, rfl, (derivative_correct l c u' h.1).2 h1, h2⟩
+  | .or l r, c, s, h => by
+    simp only [derivative, L_logicalOr, L_or, derivative_correct l c s h.1, derivative_correct r c s h.2]
+  | .and l r, c, s, h => by
+    simp only [derivative, L_logicalAnd, L_and, derivative_correct l c s h.1, derivative_correct r c s h.2]
+
+/-- iterated derivative -/
+def derivs (r : Re) (s : List Int) : Re := s.foldl derivative r
+
+theorem WF_derivs : ∀ (s : List Int) (r : Re), WF r → WF (derivs r s)
+  | [], _, h => h
+  | c :: s, r, h => WF_derivs s (derivative r c) (WF_derivative r c h)
+
+theorem derivs_correct : ∀ (s : List Int) (r : Re) (t : List Int), WF r → (L (derivs r s) t ↔ L r (s ++ t))
+  | [], _, _, _ => Iff.rfl
+  | c :: s, r, t, h => by
+    show L (derivs (derivative r c) s) t ↔ _
+    rw [derivs_correct s (derivative r c) t (WF_derivative r c h), derivative_correct r c (s ++ t) h]
+    rfl
+
+/-- whole-string matching by derivatives -/
+theorem nullable_derivs (r : Re) (s : List Int) (h : WF r) : nullable (derivs r s) = true ↔ L r s := by
+  rw [nullable_iff, derivs_correct s r [] h, List.append_nil]
+
+/-! ### derivative classes -/
+
+open Spec.IntSet in
+/-- two symbol sets have no common member -/
+def Disj (a b : SymSet) : Prop := ∀ v, ¬ (Mem a v ∧ Mem b v)
+
+open Spec.IntSet in
+/-- what `compile` needs from `derivative_classes()` of a state whose derivative is `d`:
+canonical sets, pairwise disjoint, covering the alphabet 0..255, and constant derivative on a class -/
+structure ClassesOK {σ : Type} (cls : List SymSet) (d : Int → σ) : Prop where
+  canon : ∀ K ∈ cls, Canon K
+  disj : cls.Pairwise Disj
+  cover : ∀ c, 0 ≤ c → c ≤ 255 → ∃ K ∈ cls, Mem K c
+  coh : ∀ K ∈ cls, ∀ c1 c2, Mem K c1 → Mem K c2 → d c1 = d c2
+
+open Spec.IntSet in
+theorem mem_product {as bs : List SymSet} {K : SymSet} :
+    K ∈ productIntersections as bs ↔ K ≠ [] ∧ ∃ a ∈ as, ∃ b ∈ bs, K = IntSet.inter a b := by
+  simp only [productIntersections, List.mem_filter, List.mem_flatMap, List.mem_map, Bool.not_eq_true',
+    List.isEmpty_eq_false_iff]
+  constructor
+  · rintro ⟨⟨a, ha, b, hb, rfl⟩, hne⟩; exact ⟨hne, a, ha, b, hb, rfl⟩
+  · rintro ⟨hne, a, ha, b, hb, rfl⟩; exact ⟨⟨a, ha, b, hb, rfl⟩, hne⟩
+
+open Spec.IntSet in
+theorem classesOK_product {α β γ : Type} {as bs : List SymSet} {f : Int → α} {g : Int → β} (h : Int → γ)
+    (ha : ClassesOK as f) (hb : ClassesOK bs g)
+    (hh : ∀ c1 c2, f c1 = f c2 → g c1 = g c2 → h c1 = h c2) :
+    ClassesOK (productIntersections as bs) h where
+  canon := by
+    intro K hK
+    obtain ⟨_, a, _, b, _, rfl⟩ := mem_product.1 hK
+    exact canon_inter a b
+  disj := by
+    unfold productIntersections
+    apply List.Pairwise.filter
+    rw [List.pairwise_flatMap]
+    refine ⟨fun a haa => ?_, ?_⟩
+    · rw [List.pairwise_map]
+      refine hb.disj.imp_of_mem ?_
+      intro b1 b2 hb1 hb2 hd v hv
+      exact hd v ⟨((mem_inter (ha.canon a haa) (hb.canon b1 hb1) v).1 hv.1).2,
+        ((mem_inter (ha.canon a haa) (hb.canon b2 hb2) v).1 hv.2).2⟩
+    · refine ha.disj.imp_of_mem ?_
+      intro a1 a2 ha1 ha2 hd x hx y hy v hv
+      obtain ⟨b1, hb1, rfl⟩ := List.mem_map.1 hx
+      obtain ⟨b2, hb2, rfl⟩ := List.mem_map.1 hy
+      exact hd v ⟨((mem_inter (ha.canon a1 ha1) (hb.canon b1 hb1) v).1 hv.1).1,
+        ((mem_inter (ha.canon a2 ha2) (hb.canon b2 hb2) v).1 hv.2).1⟩
+  cover := by
+    intro c h0 h1
+    obtain ⟨a, haa, hac⟩ := ha.cover c h0 h1
+    obtain ⟨b, hbb, hbc⟩ := hb.cover c h0 h1
+    have hm : Mem (IntSet.inter a b) c := (mem_inter (ha.canon a haa) (hb.canon b hbb) c).2 ⟨hac, hbc⟩
+    refine ⟨_, mem_product.2 ⟨?_, a, haa, b, hbb, rfl⟩, hm⟩
+    intro e; rw [e] at hm; exact Proofs.IntSet.mem_nil c hm
+  coh := by
+    intro K hK c1 c2 h1 h2
+    obtain ⟨_, a, haa, b, hbb, rfl⟩ := mem_product.1 hK
+    have m1 := (mem_inter (ha.canon a haa) (hb.canon b hbb) c1).1 h1
+    have m2 := (mem_inter (ha.canon a haa) (hb.canon b hbb) c2).1 h2
+    exact hh c1 c2 (ha.coh a haa c1 c2 m1.1 m2.1) (hb.coh b hbb c1 c2 m1.2 m2.2)
+
+open Spec.IntSet in
+/-- derivative classes of an expression: pairwise disjoint canonical sets covering the alphabet,
+and two symbols of one class have the same derivative -/
+theorem classesOK_re : ∀ (r : Re), WF r → ClassesOK (derivativeClasses r) (derivative r)
+  | .eps, _ => {
+      canon := by intro K hK; simp only [derivativeClasses, List.mem_singleton] at hK; subst hK; exact canon_sigma
+      disj := by simp [derivativeClasses]
+      cover := fun c h0 h1 => ⟨sigmaSet, by simp [derivativeClasses], (mem_sigma c).2 ⟨h0, h1⟩⟩
+      coh := fun _ _ _ _ _ _ => rfl }
+  | .set s, h => {
+      canon := by
+        intro K hK
+        simp only [derivativeClasses, List.mem_cons, List.not_mem_nil, or_false] at hK
+        rcases hK with rfl | rfl
+        · exact h
+        · exact canon_diff _ _
+      disj := by
+        simp only [derivativeClasses, List.pairwise_cons, List.mem_singleton, forall_eq, List.not_mem_nil,
+          false_implies, implies_true, List.Pairwise.nil, and_true]
+        intro v hv
+        exact ((mem_diff canon_sigma h v).1 hv.2).2 hv.1
+      cover := by
+        intro c h0 h1
+        by_cases hc : Mem s c
+        · exact ⟨s, by simp [derivativeClasses], hc⟩
+        · exact ⟨_, by simp [derivativeClasses], (mem_diff canon_sigma h c).2 ⟨(mem_sigma c).2 ⟨h0, h1⟩, hc⟩⟩
+      coh := by
+        intro K hK c1 c2 h1 h2
+        simp only [derivativeClasses, List.mem_cons, List.not_mem_nil, or_false] at hK
+        rcases hK with rfl | rfl
+        · simp [derivative, (Proofs.IntSet.contains_iff K h c1).2 h1, (Proofs.IntSet.contains_iff K h c2).2 h2]
+        · have n1 := ((mem_diff canon_sigma h c1).1 h1).2
+          have n2 := ((mem_diff canon_sigma h c2).1 h2).2
+          have e1 : IntSet.contains s c1 = false := by
+            cases hh : IntSet.contains s c1
+            · rfl
+            · exact absurd ((Proofs.IntSet.contains_iff s h c1).1 hh) n1
+          have e2 : IntSet.contains s c2 = false := by
+            cases hh : IntSet.contains s c2
+            · rfl
+            · exact absurd ((Proofs.IntSet.contains_iff s h c2).1 hh) n2
+          simp [derivative, e1, e2] }
+  | .star e, h =>
+    let ih := classesOK_re e h
+    { canon := ih.canon, disj := ih.disj, cover := ih.cover
+      coh := by
+        intro K hK c1 c2 h1 h2
+        simp only [derivative, ih.coh K hK c1 c2 h1 h2] }
+  | .cat l r, h => by
+    have ihl := classesOK_re l h.1
+    have ihr := classesOK_re r h.2
+    simp only [derivativeClasses]
+    split
+    · exact classesOK_product _ ihl ihr (fun c1 c2 e1 e2 => by simp only [derivative, e1, e2])
+    · next hn =>
+      have hnu : nu l = NULL := by
+        rcases nu_cases l with e | e
+        · exact absurd (by simp [nullable, e]) hn
+        · exact e
+      exact { canon := ihl.canon, disj := ihl.disj, cover := ihl.cover
+              coh := by
+                intro K hK c1 c2 h1 h2
+                simp only [derivative, ihl.coh K hK c1 c2 h1 h2, hnu, concatenate, if_true] }
+  | .or l r, h =>
+    classesOK_product _ (classesOK_re l h.1) (classesOK_re r h.2)
+      (fun c1 c2 e1 e2 => by simp only [derivative, e1, e2])
+  | .and l r, h =>
+    classesOK_product _ (classesOK_re l h.1) (classesOK_re r h.2)
+      (fun c1 c2 e1 e2 => by simp only [derivative, e1, e2])
+
 end Proofs.Regex
